@@ -69,6 +69,11 @@ def all_ops(cfg):
     small = cfg.get("small")
     for ck in [c for c in CK_ORDER if c in cfg["checkers"] and c != "nohook"][: (1 if small else 2)]:
         ops.append(["run", list(cfg["modules"]), ck, orders(cfg["modules"])[0], "disabled"])
+    hooked_cks = [c for c in CK_ORDER if c in cfg["checkers"] and c != "nohook"]
+    # a run that imports from deep inside the call stack (the hook's transformation may overflow;
+    # not judged itself) and a run in which a second, unrelated hook is installed and uninstalled twice
+    ops.append(["run", list(cfg["modules"]), hooked_cks[0], orders(cfg["modules"])[0], "deep"])
+    ops.append(["run", [cfg["modules"][0]], hooked_cks[0], orders(cfg["modules"])[0], "extra-hook"])
     for m in cfg["modules"]:
         ops.append(["edit", m])
     for m in cfg["modules"][: (1 if small else 2)]:
@@ -82,14 +87,14 @@ def op_desc(op):
     _, hooked, ck, order = op[:4]
     if ck == "nohook":
         return f"nohook({','.join(order)})"
-    return f"hook[{'+'.join(hooked)}]{'None' if ck == 'n' else ck}({','.join(order)})" + ("!disabled" if len(op) > 4 else "")
+    return f"hook[{'+'.join(hooked)}]{'None' if ck == 'n' else ck}({','.join(order)})" + ("!" + op[4] if len(op) > 4 else "")
 
 
 def judge(cfg, op, obs, src_versions, pre_listing):
     """-> [(cls, module, detail)] for one run.  cls is the stable classifier."""
     _, hooked, ck, order = op[:4]
     probs = []
-    if len(op) > 4 and op[4] == "disabled":
+    if len(op) > 4 and op[4] in ("disabled", "deep"):
         return []  # with checking off instrumentation is not observable; only what the run leaves behind matters
     plan = worlds.c18_load_plan(order, cfg["modules"], ck, hooked)
     if obs["outcome"] != "ok":
@@ -152,7 +157,7 @@ def _apply(w, cfg, op, pre_listing):
     if op[0] == "edit":
         w.edit(op[1], back=len(op) > 2)
         return None, []
-    obs = w.run(op[1], op[2], op[3], disabled=len(op) > 4 and op[4] == "disabled")
+    obs = w.run(op[1], op[2], op[3], disabled=op[4] if len(op) > 4 else False)
     return obs, judge(cfg, op, obs, {m: v[0] for m, v in w.src.items()}, pre_listing)
 
 
@@ -218,11 +223,11 @@ def _subproc(job):
         if op[0] == "edit":
             w.edit(op[1], back=len(op) > 2)
             return w.snapshot(), None
-        sub = w.subprocess_run(op[1], op[2], op[3], disabled=len(op) > 4 and op[4] == "disabled")
+        sub = w.subprocess_run(op[1], op[2], op[3], disabled=op[4] if len(op) > 4 else False)
         s_sub = w.snapshot()
         k_sub = w.key(s_sub)
         w.restore(start)
-        inp = w.run(op[1], op[2], op[3], disabled=len(op) > 4 and op[4] == "disabled")
+        inp = w.run(op[1], op[2], op[3], disabled=op[4] if len(op) > 4 else False)
         k_in = w.key()
         n += 1
         if k_sub != k_in or not _cmp(sub, inp):
@@ -316,7 +321,7 @@ def _history_as_processes(w, cfg, hist):
             w.edit(op[1], back=len(op) > 2)
             probs = []
         else:
-            obs = w.subprocess_run(op[1], op[2], op[3], disabled=len(op) > 4 and op[4] == "disabled")
+            obs = w.subprocess_run(op[1], op[2], op[3], disabled=op[4] if len(op) > 4 else False)
             probs = judge(cfg, op, obs, {m: v[0] for m, v in w.src.items()}, pre)
     return probs, w.key()
 
@@ -346,6 +351,16 @@ def run(ctx):
     try:
         with worlds.Pool() as pool:
             res = _run(ctx, tmp, pool, sw)
+        from . import c18_threads
+
+        tv, tcov = c18_threads.run_part(ctx)
+        res.violations += tv
+        res.coverage["concurrent_imports"] = tcov
+        res.coverage["schedules"] = tcov["schedules"]
+        res.assumptions.append(
+            "concurrent part: scheduling points are call (thorough: also line) events of the hook's code, importlib._bootstrap_external and unittest.mock outside the global import lock; "
+            "the AST transformation and CPython's pure path helpers are not interleaved at call granularity"
+        )
     finally:
         w = _W.pop("w", None)
         if w is not None:
@@ -470,6 +485,10 @@ def _run(ctx, tmp, pool, sw):
 def replay(rep):
     """Re-execute a recorded history from an empty cache, every run as a REAL
     separate process (and once more in-process)."""
+    if rep.get("kind") == "threads":
+        from . import c18_threads
+
+        return c18_threads.replay_one(rep)
     common.bind_repo()
     tmp = tempfile.mkdtemp(prefix="vf_c18r_")
     cfg = dict(modules=rep["modules"], checkers=[])
